@@ -197,8 +197,30 @@ func specJudge(root string, c GCase, rep *CaseReport) []Judgement {
 		return nil
 	}
 	byName := map[string]FuncLines{}
+	nameCount := map[string]int{}
 	for _, fl := range funcs {
 		byName[bareName(fl.Key)] = fl
+		nameCount[bareName(fl.Key)]++
+	}
+	// a plain function and a method of the same name (or two methods of different receivers): the judge pairs
+	// functions with interface methods by bare name and gives no verdict where that is ambiguous
+	for n, k := range nameCount {
+		if k > 1 {
+			delete(byName, n)
+		}
+	}
+	methodCount := map[string]int{}
+	for _, so := range rep.Facts.File.Scope {
+		if so.IsInterface && so.InSetupFile {
+			for _, m := range so.Methods {
+				methodCount[m.Name]++
+			}
+		}
+	}
+	for n, k := range methodCount {
+		if k > 1 {
+			delete(byName, n)
+		}
 	}
 	w := tyWalker{rep.Facts}
 	ns := methodNotations(rep.Facts)
